@@ -171,9 +171,9 @@ func c17Scenarios(quick bool) []c17Scenario {
 	// unbounded space (600k executions were not enough for 2 threads with 45
 	// schedule points); bounds are iterated instead and the completed bound is
 	// reported
-	b2 := []int{0, 1, 2, 3, 4}
-	b3 := []int{0, 1, 2, 3}
-	b3small := b3 // 3-thread scenarios with few schedule points
+	b2 := []int{0, 1, 2, 3}
+	b3 := []int{0, 1, 2}
+	b3small := []int{0, 1, 2, 3} // 3-thread scenarios with few schedule points
 	if quick {
 		b2 = []int{0, 1, 2}
 		b3 = []int{0, 1}
